@@ -1,6 +1,6 @@
 (* C07 - Seal then unseal is lossless for every token, key algorithm and codec. *)
 From Coq Require Import String.
-Require Import Base Node Cbor CborProofs Did DidProofs Generated Policy PolicyIpld Envelope Token TokenProofs SealProofs.
+Require Import Base Node Cbor CborProofs Did DidProofs Generated Policy PolicyIpld Envelope Token TokenProofs SealProofs SealedBytes CanonProofs SealBytesProofs.
 Local Open Scope N_scope.
 
 (* go-ucan's own mapping: token -> payload node -> token is the identity on everything a constructor
@@ -35,13 +35,37 @@ Theorem C07_invocation_seal_unseal : forall verify header_of sign t hdr,
 Proof. exact inv_seal_unseal. Qed.
 Print Assumptions C07_invocation_seal_unseal.
 
-(* the DAG-CBOR layer: decoding the encoding gives the node back, maps in canonical order.
-   PARTIAL: the step "the payload decoders give the same token on a node and on its canonicalisation
-   (they look fields up by name)" is validated by the token engine, not proved. *)
-Theorem C07_codec_roundtrip_partial : forall x, wf x -> forall f r, (depth x <= f)%nat -> dec f (encode x ++ r) = Some (canon x, r).
+(* down to the bytes: what ToSealed writes (the DAG-CBOR encoding of the signed envelope), FromSealed
+   (decode, canonical-form check, envelope, payload) reads back as the same token, its maps (meta,
+   arguments, map literals in policies) in canonical key order - the order Go's own maps do not have.
+   Premises: lengths fit 64 bits (wf), no map repeats a key (keys_distinct), the decoder's depth budget. *)
+Theorem C07_delegation_seal_bytes_unseal : forall verify header_of sign t hdr f,
+  dlg_constructed t -> header_of (dk_iss t) = Ok hdr -> (forall m, verify (dk_iss t) m (sign m) = true) ->
+  wf (env_seal sign hdr dlg_tag (dlg_to_payload t)) -> keys_distinct (env_seal sign hdr dlg_tag (dlg_to_payload t)) ->
+  (depth (env_seal sign hdr dlg_tag (dlg_to_payload t)) <= f)%nat ->
+  from_sealed verify header_of dtok dlg_from_payload dlg_tag f (to_sealed sign hdr dlg_tag (dlg_to_payload t)) = Ok (canon_dtok t).
+Proof. exact dlg_seal_bytes_unseal. Qed.
+Print Assumptions C07_delegation_seal_bytes_unseal.
+Theorem C07_invocation_seal_bytes_unseal : forall verify header_of sign t hdr f,
+  inv_constructed t -> header_of (ik_iss t) = Ok hdr -> (forall m, verify (ik_iss t) m (sign m) = true) ->
+  wf (env_seal sign hdr inv_tag (inv_to_payload t)) -> keys_distinct (env_seal sign hdr inv_tag (inv_to_payload t)) ->
+  (depth (env_seal sign hdr inv_tag (inv_to_payload t)) <= f)%nat ->
+  from_sealed verify header_of itok inv_from_payload inv_tag f (to_sealed sign hdr inv_tag (inv_to_payload t)) = Ok (canon_itok t).
+Proof. exact inv_seal_bytes_unseal. Qed.
+Print Assumptions C07_invocation_seal_bytes_unseal.
+(* the DAG-CBOR layer on its own: decoding the encoding gives the node back, maps in canonical order *)
+Theorem C07_codec_roundtrip : forall x, wf x -> forall f r, (depth x <= f)%nat -> dec f (encode x ++ r) = Some (canon x, r).
 Proof. exact dec_encode. Qed.
-Print Assumptions C07_codec_roundtrip_partial.
-
+Print Assumptions C07_codec_roundtrip.
+(* the payload decoders do not see the order of map entries *)
+Theorem C07_delegation_decoder_ignores_map_order : forall m, NoDup (map fst m) ->
+  dlg_from_payload (canon (Map m)) = rmap canon_dtok (dlg_from_payload (Map m)).
+Proof. exact dlg_from_payload_canon. Qed.
+Print Assumptions C07_delegation_decoder_ignores_map_order.
+Theorem C07_invocation_decoder_ignores_map_order : forall m, NoDup (map fst m) ->
+  inv_from_payload (canon (Map m)) = rmap canon_itok (inv_from_payload (Map m)).
+Proof. exact inv_from_payload_canon. Qed.
+Print Assumptions C07_invocation_decoder_ignores_map_order.
 (* every key algorithm the DID package generates is accepted by the DID parser and has an unmarshaller *)
 Theorem C07_every_generatable_algorithm_is_decodable :
   forallb (fun c => mem c parse_codes && mem c unmarshal_codes && (c <? 2 ^ 63)) emit_codes = true.
